@@ -163,7 +163,7 @@ LITS = [
     (b"!",),
 ]
 
-TYPES = {"SOA": 6, "NS": 2, "A": 1, "TXT": 16}
+TYPES = {"SOA": 6, "NS": 2, "A": 1, "TXT": 16, "CNAME": 5}
 RDTEXT = {
     # targets outside both origins: the zone reader must not relativize them, so that the
     # rdata loaded from text and the rdata passed to a transaction are the same value
@@ -171,6 +171,7 @@ RDTEXT = {
     "NS": ["ns1.nic.test.", "ns2.nic.test."],
     "A": ["10.0.0.1", "10.0.0.2"],
     "TXT": ['"t1"', '"t2"'],
+    "CNAME": ["c1.nic.test.", "c2.nic.test."],
 }
 TTL = 300
 
@@ -232,10 +233,20 @@ def _show(key):
 # content bookkeeping (documented Transaction semantics) -- state: {key: {rdtype: frozenset(rd_idx)}}
 
 
+CNAME_T = 5
+
+
 def _with(state, key, t, rds):
     post = dict(state)
     node = dict(post.get(key, {}))
     if rds:
+        # CNAME and other data exclude each other (dns.node): storing CNAME drops the node's other
+        # record sets (an NS set included: the name stops being a cut), storing anything else
+        # drops CNAME
+        if t == CNAME_T:
+            node = {}
+        else:
+            node.pop(CNAME_T, None)
         node[t] = frozenset(rds)
     else:
         node.pop(t, None)
@@ -255,6 +266,8 @@ def _plan(state, key, op):
         post.pop(key, None)
         return "delnode", None, post
     t = TYPES[op[2]]
+    if kind == "add" and t == CNAME_T:
+        return "put", t, _with(state, key, t, {op[3]})  # singleton type: the new record replaces
     if kind == "add":
         return "put", t, _with(state, key, t, set(node.get(t, ())) | {op[3]})
     if kind == "replace":
@@ -341,6 +354,8 @@ def _simulate(ctx, state, ops):
                     events.add("cut-created-above-existing-names")
         if low == "delrds" and t == BM.NS and is_cut:
             events.add("cut-ns-removed")
+        if low == "put" and t == CNAME_T and is_cut:
+            events.add("cname-put-at-cut")
         if key == ctx.apex and t == BM.NS:
             events.add("apex-ns-change")
         if low == "put" and key not in state and pm.is_glue(key):
@@ -835,6 +850,13 @@ def _txn(draw, focus, maxops):
             ["add", n, "NS", draw(st.integers(0, 1)), draw(st.integers(0, 1))],
             [draw(st.sampled_from(["add", "replace", "del_rd"])), n, draw(st.sampled_from(["A", "TXT"])), draw(st.integers(0, 1)), draw(st.integers(0, 1))],
         ]
+    if k == 1:
+        # CNAME stored at a (former or future) cut: the node's NS set goes away implicitly
+        n = draw(st.sampled_from([f for f in focus if f != 0] or [1]))
+        ops = ops + [
+            ["add", n, "NS", draw(st.integers(0, 1)), draw(st.integers(0, 1))],
+            [draw(st.sampled_from(["add", "replace"])), n, "CNAME", draw(st.integers(0, 1)), draw(st.integers(0, 1))],
+        ] + ([["add", n, draw(st.sampled_from(["NS", "A"])), 0, 0]] if draw(st.booleans()) else [])
     return {
         "ops": ops,
         "rollback": draw(st.integers(0, 7)) == 0,
@@ -963,6 +985,7 @@ def parts(tier):
                 "non-ns-change-at-cut": 20,
                 "cut-created-above-existing-names": 50,
                 "cut-ns-removed": 50,
+                "cname-put-at-cut": 20,
                 "ns-put-below-cut": 30,
                 "new-name-below-cut": 30,
                 "node-deletion": 100,
